@@ -201,6 +201,7 @@ ViewClauses(v) == <<
   <<"C03", "annotated-tree-cost-differs-from-script-total", v.edited = total>>,
   <<"C03", "flat-edit-list-cost-differs-from-script-total", v.flat = total>>,
   <<"C03", "refined-top-level-cost-differs-from-script-total", v.top = total>>,
+  <<"C03", "annotated-tree-of-a-chained-diff-differs-from-script-total", v.chained = total>>,
   <<"C01", "annotated-tree-removals-differ-from-script", v.ann => v.annRemoved = removed>>,
   <<"C01", "annotated-tree-insertions-differ-from-script", v.ann => v.annInserted = inserted>>,
   <<"C02", "library-reports-edits-differently-from-total", v.hadEdits = (total > 0)>> >>
